@@ -12,6 +12,7 @@ import (
 	"io"
 	"net/http"
 	"strconv"
+	"strings"
 	"sync/atomic"
 	"testing"
 	"testing/synctest"
@@ -100,30 +101,33 @@ func c10cGen(t *rapid.T) c10cCase {
 	return c
 }
 
-// c10cKnown names the known-finding class a case falls into ("" = none).
+// c10cKnown names the known-finding classes a case falls into (comma-separated keys,
+// "" = none).
 func c10cKnown(c c10cCase) string {
+	var keys []string
 	if int64(c.RecvPerConn) > 1<<31-1-65535 {
-		return "c10-client-conn-window-config-overflow"
+		keys = append(keys, "c10-client-conn-window-config-overflow")
 	}
+	dbl, over := false, false
 	for _, st := range c.Streams {
 		if st.Final == "close2" {
-			return "c10-client-double-close-double-refund"
+			dbl = true // Response.Body closed twice
+		}
+		if st.CL == 2 {
+			reads := st.Final == "readall"
+			for _, e := range st.Events {
+				reads = reads || e.Kind == "read"
+			}
+			over = over || reads // response longer than its Content-Length, read by the application
 		}
 	}
-	for _, st := range c.Streams {
-		if st.CL != 2 {
-			continue
-		}
-		reads := st.Final == "readall"
-		for _, e := range st.Events {
-			reads = reads || e.Kind == "read"
-		}
-		if reads {
-			// response longer than its Content-Length, read by the application
-			return "c10-client-overlength-read-no-refund"
-		}
+	if dbl {
+		keys = append(keys, "c10-client-double-close-double-refund")
 	}
-	return ""
+	if over {
+		keys = append(keys, "c10-client-overlength-read-no-refund")
+	}
+	return strings.Join(keys, ",")
 }
 
 type c10cSt struct {
